@@ -387,5 +387,5 @@ def bDel (s : State) (r : String) (arg : String) : State × Resp :=
     let rp := s.repo r
     match rp.blob d with
     | none => (s, { status := 404, code := "BLOB_UNKNOWN" })
-    | some _ => (s.setRepo { rp with blobs := rp.blobs.filter (·.1 ≠ d) }, { status := 202 })
+    | some _ => (s.setRepo { rp with blobs := rp.blobs.filter (·.1 ≠ d), old := rp.old.filter (· ≠ d) }, { status := 202 })
 end Upd
